@@ -268,7 +268,10 @@ Definition close_phase (ex : node -> state -> state * outcome) (p : payload) (s 
     | None => (s, ONorm)
     | Some (tf, rest) =>
         let s1 := set_ts (tf :: rest) (restore_regs tf s) in
-        close_items ex (firstn (length (its s1) - t_iter tf) (its s1)) s1
+        match close_items ex (firstn (length (its s1) - t_iter tf) (its s1)) s1 with
+        | (s2, OPanic p') => (restore_stacks (t_iter tf) (t_ref tf) s2, OPanic p')   (* deferred dropStacks (bf68b95) *)
+        | r => r
+        end
     end
   else (s, ONorm).
 
